@@ -43,6 +43,7 @@ def signature(prop, begin, ev, what, text):
         exp = "reject:" + "|".join(sorted(classes))
     if begin["refKind"] == "unknown":
         cls = "unknownhash"         # sizes and mutations do not matter when the hash cannot be computed
+        exp = "reject:unsupported"
     else:
         cls = "sha,%s,%s%s" % (begin["sizeKind"], begin["bytesKind"], ",srcerror" if begin["readerKind"] == "error" else "")
     if ev["ev"] == "lower":
@@ -196,7 +197,9 @@ def run(ctx, replay):
     f_s2 = pre.submit(ctx.tlc_check, "Ingest", "Ingest.cfg", {"Deviations": '{"LimitTruncates"}'}, 2, 900, "OnlyAcceptableStored")
     f_g = pre.submit(ctx.tlc_gen, "IngestGen", "IngestGen.cfg", {"BigBackends": big, "Small": small}, None, None, None, 900, "OFFER")
     offers = f_g.result()
-    f_s1.result()
+    r1 = f_s1.result()
+    if r1.get("zero_actions"):
+        raise vlib.MachineryError("Ingest: actions never taken in the exhaustive run (vacuous model): %s" % r1["zero_actions"])
     f_s2.result()
     pre.shutdown()
     # big offers are spread evenly over the shards
